@@ -10,7 +10,7 @@ direct oracle of every C14 clause on the real functions.
 """
 import math, os, sys, types, warnings
 import numpy as np
-import vlib
+import vlib, kwnfull
 from vlib import Result, enc_list, f2b, Toks, close
 
 PROP = 'C14'
@@ -20,7 +20,7 @@ META = {
     'technique': 'Lean 4 proof over ordered fields / reals about source-regenerated definitions + translator validation + model/implementation differential correspondence + run-trace refinement',
     'design_ref': 'DESIGN.md section 6, C14',
 }
-LEAN_MODULES = ['KawinV.Props.C14']
+LEAN_MODULES = ['KawinV.Props.C14', 'KawinV.Props.KWNFull']
 MONITORED = [
     'edge factors: gbRemoval, areaFactor, volumeFactor >= 0 and volumeFactor strictly decreasing on (0, sqrt(3)/2) (fine grid up to the limit)',
     'corner factors: gbRemoval, areaFactor, volumeFactor >= 0 and volumeFactor strictly decreasing on (0, sqrt(2/3)) (fine grid up to the limit)',
@@ -1306,6 +1306,11 @@ def corr(ctx, oracle_only=False, scale=1):
     timed('sites', check_sites, ctx, res, batch, N, R, q(200, 4000))
     if not os.environ.get('VERIF_C14_NORUN'):
         timed('run', check_run, ctx, res, batch, R, run_configs(ctx))
+    # the COMPOSED step (KWNFull.eulerStep, theorem depEval_nuc): the nucleation stage inside real runs (regenerated barrier, Zeldovich,
+    # impingement, incubation, rate, radius and the site competition) must reproduce every recorded row given the captured answers
+    if not oracle_only:
+        site = ctx.rng.choice(['grain boundaries', 'grain edges', 'grain corners', 'bulk', 'dislocations'])
+        timed('composed-step', kwnfull.refine_scenarios, ctx, res, PROP, [('alzr-site:' + site, int(ctx.n(120, 500) * scale) or 1), ('alzr', int(ctx.n(150, 800) * scale) or 1)])
     timed('driver', batch.run, res, ctx.driver_ok and not oracle_only)
     res.extra['section_seconds'] = timing
     res.extra['driver_lines'] = len(batch.lines)
